@@ -147,9 +147,19 @@ def gen_program(rng, form=None):
         other = "\nflow other flow\n  match NeverTwo()\n"
     elif form == "when":
         body = "  when %s\n    send Ret(v=0, x=$x)\n" % call
-    src = head + body + "  match Never()\n\n" + callee + other
+    overridden = None
+    if rng.random() < 0.15:
+        # the callee is the @override of an earlier definition with ANOTHER signature (fewer / more / reordered parameters,
+        # other defaults, another return value): the statement is about the flow that is called, i.e. the overriding one
+        base_names = list(names)
+        rng.shuffle(base_names)
+        base_names = base_names[: rng.randint(0, len(base_names))] + (["extra"] if rng.random() < 0.4 else [])
+        base_sig = " ".join("$" + nm + ("=" + lit(rng.choice(["base-default", 41, None])) if rng.random() < 0.6 else "") for nm in base_names)
+        overridden = 'flow callee %s\n  send BaseEcho()\n  match Release()\n  return "base-return"\n\n' % base_sig
+        callee = "@override\n" + callee
+    src = head + body + "  match Never()\n\n" + (overridden or "") + callee + other
     nontrivial = np_ >= 2 and (bool(named) or any(nm not in named and i >= npos and nm in defaults for i, nm in enumerate(names)))
-    return {"src": src, "form": form, "names": names, "exp": exp, "ret": ret_val, "nontrivial": nontrivial}
+    return {"src": src, "form": form, "names": names, "exp": exp, "ret": ret_val, "nontrivial": nontrivial, "override": overridden is not None}
 
 
 def cases(tier, seed):
@@ -194,7 +204,7 @@ def run_bind(case):
     g = gen_program(rng)
     L["random"].reset(seed=case["seed"])
     base = {"key": g["src"], "nontrivial": g["nontrivial"], "sample": {"program": g["src"], "expected_params": g["exp"], "expected_return": g["ret"]}, "form": g["form"]}
-    obs = {"form_" + g["form"]: 1, "params_checked": 0, "returns_checked": 0, "locals_checked": 0}
+    obs = {"form_" + g["form"]: 1, "params_checked": 0, "returns_checked": 0, "locals_checked": 0, "callee_overrides_another_signature": int(bool(g.get("override")))}
     try:
         st = v2h.mk(g["src"])
     except v2h.LoaderReject as e:
